@@ -230,7 +230,8 @@ EvResume(t) ==
   /\ flags' = flags \cup Flag(life[t] # "paused", "resume_not_paused")         \* C01
                     \cup Flag(Cardinality(Busy) >= cf.nw, "worker_budget")     \* C01
                     \cup Flag(stopHeld, "start_after_stop")                    \* C12
-                    \cup Flag(ck[t] # "present", "resume_ckpt_missing")        \* C20
+                    \* C20 (cf.spec: speculative early removal was requested: a resumed trial may have lost its checkpoint)
+                    \cup Flag(ck[t] # "present" /\ ~cf.spec, "resume_ckpt_missing")
                     \cup Flag(ps[t] # "removed", "protocol_resume")            \* C01
                     \cup Flag(life[t] = "failed", "resume_failed_run")         \* C13 (an OBSERVED failure)
                     \cup Flag(phase # "loop", "start_after_end")
@@ -247,7 +248,7 @@ EvResume(t) ==
 EvDelete(t) ==
   /\ flags' = flags \cup Flag(~( life[t] \in {"stopped", "completed", "failed", "none"}
                                  \/ phase # "loop"
-                                 \/ (life[t] = "paused" /\ t \in rmv) ), "delete_live")   \* C20
+                                 \/ (life[t] = "paused" /\ (t \in rmv \/ cf.spec)) ), "delete_live")   \* C20
   /\ ck' = [ck EXCEPT ![t] = IF @ = "none" THEN "none" ELSE "deleted"]
   /\ UNCHANGED <<envV, dl, life, dec, ps, rmv, nstart, nhand, stopHeld, exh, phase, dead, xf, cq>>
 
